@@ -199,3 +199,59 @@ func VVertexRing(path Path64, isOpen bool) (pts Path64, flags []int, minima []in
 	}
 	return pts, flags, minima, true
 }
+
+func vSynthRing(o *OutRec, ring Path64) *OutPt {
+	var first, last *OutPt
+	for _, p := range ring {
+		op := newOutPt(p, o)
+		if first == nil {
+			first = op
+		} else {
+			last.next = op
+			op.prev = last
+		}
+		last = op
+	}
+	if first != nil {
+		last.next = first
+		first.prev = last
+	}
+	return first
+}
+
+func vRingPoints(op *OutPt) Path64 {
+	var out Path64
+	if op == nil {
+		return out
+	}
+	for p := op; ; {
+		out = append(out, p.pt)
+		p = p.next
+		if p == op {
+			break
+		}
+	}
+	return out
+}
+
+// VCleanCollinear builds an output ring (ring[0] is outrec.pts, then .next order), runs the real
+// cleanCollinear on it and returns the remaining ring read from outrec.pts, and the number of
+// output records afterwards (more than one: fixSelfIntersects split the ring).
+func VCleanCollinear(ring Path64, preserveCollinear bool) (out Path64, recs int) {
+	c := newClipperBase()
+	c.preserveCollinear = preserveCollinear
+	o := c.newOutRec()
+	o.pts = vSynthRing(o, ring)
+	c.cleanCollinear(o)
+	return vRingPoints(o.pts), len(c.outrecList)
+}
+
+// VBuildPath builds an output ring (ring[0] is op) and runs the real buildPath on it.
+func VBuildPath(ring Path64, reverse, isOpen bool) (Path64, bool) {
+	c := newClipperBase()
+	o := c.newOutRec()
+	op := vSynthRing(o, ring)
+	path := Path64{}
+	ok := c.buildPath(op, reverse, isOpen, &path)
+	return path, ok
+}
